@@ -55,6 +55,7 @@ pub fn explore_prim(id: u8, strata: u32, lattice2: u32, collect: bool) -> PrimRe
             cfg.tail_bits = 40;
             cfg.tail_points = 4;
             cfg.exec_budget = 20_000_000_000;
+            cfg.deadline = Some(std::time::Instant::now() + std::time::Duration::from_secs(if strata > (1 << 14) { 600 } else { 90 }));
             let mut ex = Explorer::new(&*s, &grid, cfg, None);
             let r = ex.run_zig_product(strata, lo, hi).expect("primitive consumes no random word?");
             (r, ex.cnt.clone(), ex.bad_leaves.clone())
